@@ -103,6 +103,10 @@ AggRat(fn, arg, idxs) ==
     [] fn = "avg"   -> IF u = <<>> THEN <<FALSE, 0, 1>> ELSE <<TRUE, SumF(u), Len(u)>>
     [] fn = "min"   -> IF u = <<>> THEN <<FALSE, 0, 1>> ELSE <<TRUE, MinF(u), 1>>
     [] fn = "max"   -> IF u = <<>> THEN <<FALSE, 0, 1>> ELSE <<TRUE, MaxF(u), 1>>
+    \* the median of the usable values whatever order they arrived in
+    [] fn = "median" -> IF u = <<>> THEN <<FALSE, 0, 1>>
+                        ELSE LET s == SortF(u)  n == Len(u) IN
+                             IF n % 2 = 1 THEN <<TRUE, s[(n + 1) \div 2], 1>> ELSE <<TRUE, s[n \div 2] + s[n \div 2 + 1], 2>>
 Cmp(op, a, b) == CASE op = ">" -> a > b [] op = ">=" -> a >= b [] op = "<" -> a < b [] op = "<=" -> a <= b
                    [] op = "==" -> a = b [] op = "!=" -> a # b
 RECURSIVE PHolds(_, _)
